@@ -386,6 +386,14 @@ void emit_views(Tag const& t, M const& m, bool with_mdarray)
                 e.str("kind", "mdarray").num("size", long(ma.size())).flag("empty", ma.empty()).arr("xext", observed(ma.extents()));
                 e.num("csize", long(ma.container_size())).end();
             }
+            {
+                // a caller-supplied container with spare elements: size()/empty() speak about the index space, not the container
+                Ctr big(size_t(m.required_span_size()) + 3);
+                md::mdarray<int, E, L, Ctr> mb(m, big);
+                Ev e("mdinfo");
+                put_tag(e, t);
+                e.str("kind", "mdarray_spare").num("size", long(mb.size())).flag("empty", mb.empty()).arr("xext", observed(mb.extents())).end();
+            }
             auto view = ma.to_mdspan();
             for_each_index<R>(t.ext, [&](auto const& idx) {
                 long const a1 = [&]<size_t... K>(std::index_sequence<K...>) {
